@@ -77,9 +77,18 @@ impl OFCase {
 /// when non-zero, record `i` gets the id `r{i % ID_MOD}`: inputs in which several records share an id (cases run one at a time)
 pub static ID_MOD: std::sync::atomic::AtomicUsize = std::sync::atomic::AtomicUsize::new(0);
 
+/// when set, ids are 23 ASCII bytes followed by a two-byte character (code that cuts ids at a byte offset must respect
+/// character boundaries)
+pub static ID_WIDE: std::sync::atomic::AtomicBool = std::sync::atomic::AtomicBool::new(false);
+
 pub fn rec_id(i: usize) -> String {
     let m = ID_MOD.load(std::sync::atomic::Ordering::SeqCst);
-    format!("r{}", if m > 0 { i % m } else { i })
+    let j = if m > 0 { i % m } else { i };
+    if ID_WIDE.load(std::sync::atomic::Ordering::SeqCst) {
+        format!("r{:0>22}é{}", j, j % 7)
+    } else {
+        format!("r{}", j)
+    }
 }
 
 pub fn input_case(recs: &[Vec<u8>], container: &str) -> (IoCase, &'static str) {
@@ -121,7 +130,7 @@ pub fn container_for(req: &str, recs: &[Vec<u8>]) -> String {
     let fq_ok = recs.iter().all(|r| !r.is_empty() && !r.iter().any(|&b| b == b'+' || b == b'@' || b <= 32 || b >= 127));
     match (h >> 9) % 10 {
         0 => "fawrap:60".into(),
-        1 => "fagz".into(),
+        1 => if (h >> 20) & 1 == 1 { "fagz+ln".into() } else { "fagz".into() },
         2 => "fagzm".into(),
         3 if fq_ok => "fq".into(),
         4 if fq_ok => "fqwrap:16".into(),
@@ -131,6 +140,10 @@ pub fn container_for(req: &str, recs: &[Vec<u8>]) -> String {
 
 /// write the records in the requested container; returns the path
 pub fn write_input(work: &str, uid: &str, recs: &[Vec<u8>], container: &str) -> String {
+    // "<container>+ln": the data sits in a file with an unrelated name and the tool is given a symbolic link carrying the
+    // usual suffix (workflow managers and caches do this); the name the user passes decides format and compression
+    let ln = container.ends_with("+ln");
+    let container = container.trim_end_matches("+ln");
     let (mut c, gz) = input_case(recs, container);
     if c.container == "gzm" {
         // two gzip members cut in the middle of the text (bgzip / concatenated .gz)
@@ -138,8 +151,35 @@ pub fn write_input(work: &str, uid: &str, recs: &[Vec<u8>], container: &str) -> 
         c.container = format!("gzm:{}", n / 2);
     }
     let path = format!("{}/in_{}{}{}", work, uid, c.suffix, gz);
-    write_container(&path, &crate::p_io::serialise(&c), &c.container);
+    let _ = std::fs::remove_file(&path);
+    if ln {
+        let store = format!("{}/store_{}.dat", work, uid);
+        write_container(&store, &crate::p_io::serialise(&c), &c.container);
+        let _ = std::os::unix::fs::symlink(&store, &path);
+    } else {
+        write_container(&path, &crate::p_io::serialise(&c), &c.container);
+    }
+    // left-overs of other tools next to the input: a stale sequence index and friends, describing some other file
+    if stale_case(&format!("sidecar {}", uid)) {
+        let nlines = 1 + (uid.len() * 7 + recs.len() * 3) % 9;
+        let mut fai = String::new();
+        for i in 0..nlines {
+            fai.push_str(&format!("old{}\t{}\t{}\t60\t61\n", i, 100 + i, 7 + 120 * i));
+        }
+        let _ = std::fs::write(format!("{}.fai", path), &fai);
+        let _ = std::fs::write(format!("{}.gzi", path), b"\x00\x00\x00\x00\x00\x00\x00\x00");
+    }
     path
+}
+
+/// removes an input written by `write_input` together with its side files
+pub fn remove_input(path: &str) {
+    if let Ok(t) = std::fs::read_link(path) {
+        let _ = std::fs::remove_file(t);
+    }
+    let _ = std::fs::remove_file(path);
+    let _ = std::fs::remove_file(format!("{}.fai", path));
+    let _ = std::fs::remove_file(format!("{}.gzi", path));
 }
 
 pub fn install_sched(s: &str) {
@@ -187,9 +227,117 @@ pub fn run_oligo(c: &OFCase, work: &str, uid: &str) -> RunOut {
     let result = catch(std::panic::AssertUnwindSafe(|| if mmap { oc.verif_vectorise_mmap() } else { oc.verif_vectorise_batch() }));
     let ctl = verif::uninstall();
     let out = std::fs::read(&outp).unwrap_or_default();
-    let _ = std::fs::remove_file(&inp);
+    crate::p_file::remove_input(&inp);
     let _ = std::fs::remove_file(&outp);
     RunOut { result, out, ctl }
+}
+
+/// Thorough tier only: outputs beyond the 32-bit limits. N identical 8-base records at k = 7 (8192 columns, 73728 bytes per
+/// normalised row): the mapped writer with header produces more than 4 GiB (58300 records), the batched writer one batch of more
+/// than 2 GiB of row text (29200 records: one write call cannot take it). Expected: the header, then the same row N times (row and
+/// header from the Lean model for one record); the file is compared streaming.
+pub fn giant_output(mapped: bool, exp: &mut Expect, work: &str) -> Option<Fail> {
+    let rec = b"ACGTACGT".to_vec();
+    let n: usize = if mapped { 58_300 } else { 29_200 };
+    let one = OFCase { recs: vec![rec.clone()], k: 7, norm: true, header: mapped, delim: b" ".to_vec(), threads: 8, path: "mmap".into(), container: "fa".into(), sched: "free".into() };
+    let (file1, hdr_len, row_len) = exp.file(&one);
+    if row_len == 0 || file1.len() != hdr_len + row_len {
+        return Some(Fail { class: "model", detail: "model did not produce the one-record file".into(), theorem: "", impl_out: String::new(), model_out: String::new() });
+    }
+    let (header, row) = (file1[..hdr_len].to_vec(), file1[hdr_len..].to_vec());
+    let inp = format!("{}/giant_{}.fa", work, if mapped { "m" } else { "b" });
+    let outp = format!("{}/giant_{}.out", work, if mapped { "m" } else { "b" });
+    {
+        use std::io::Write;
+        let mut f = std::io::BufWriter::new(std::fs::File::create(&inp).unwrap());
+        for i in 0..n {
+            writeln!(f, ">r{}", i).unwrap();
+            f.write_all(&rec).unwrap();
+            f.write_all(b"\n").unwrap();
+        }
+    }
+    let _ = std::fs::remove_file(&outp);
+    let mut oc = OligoComputer::new(inp.clone(), outp.clone(), 7);
+    oc.set_threads(8);
+    oc.set_norm(true);
+    oc.set_header(mapped);
+    install_sched("free");
+    let result = catch(std::panic::AssertUnwindSafe(|| if mapped { oc.verif_vectorise_mmap() } else { oc.verif_vectorise_batch() }));
+    let _ = verif::uninstall();
+    let _ = std::fs::remove_file(&inp);
+    let mut verdict: Option<String> = None;
+    if !matches!(result, Ok(Ok(()))) {
+        verdict = Some(format!("the writer failed: {:?}", result.map(|r| r.is_ok())));
+    } else {
+        use std::io::Read;
+        let want = header.len() as u64 + (n as u64) * row.len() as u64;
+        let have = std::fs::metadata(&outp).map(|m| m.len()).unwrap_or(0);
+        if have != want {
+            verdict = Some(format!("output has {} bytes, expected {} (header {} + {} rows of {})", have, want, header.len(), n, row.len()));
+        } else {
+            let mut f = std::io::BufReader::with_capacity(1 << 20, std::fs::File::open(&outp).unwrap());
+            let mut h = vec![0u8; header.len()];
+            if f.read_exact(&mut h).is_err() || h != header {
+                verdict = Some(format!("the header line is not the column line (first difference at byte {})", h.iter().zip(header.iter()).position(|(a, b)| a != b).unwrap_or(0)));
+            } else {
+                let mut buf = vec![0u8; row.len()];
+                for i in 0..n {
+                    if f.read_exact(&mut buf).is_err() || buf != row {
+                        verdict = Some(format!("row {} of {} is not the row of its record ({} NUL bytes in it)", i, n, buf.iter().filter(|&&b| b == 0).count()));
+                        break;
+                    }
+                }
+            }
+        }
+    }
+    let _ = std::fs::remove_file(&outp);
+    verdict.map(|d| Fail { class: "spec", detail: format!("{} writer, {} records at k = 7: {}", if mapped { "mapped" } else { "batched" }, n, d), theorem: if mapped { "KT.mmap_any_schedule" } else { "KT.batchOutput_eq" }, impl_out: String::new(), model_out: String::new() })
+}
+
+/// One `OligoComputer` used twice while the input file changes in between (a pipeline that re-fills the same path): the second
+/// mapped file must be sized, tiled and filled for the records that are in the file at the second call.
+/// request: `oftwice <k> <header> <threads> <recs of the first call> <recs of the second call>`
+pub fn eval_twice(req: &str, exp: &mut Expect, work: &str, uid: &str) -> Option<Fail> {
+    let w: Vec<&str> = req.split_whitespace().collect();
+    if w.len() != 6 {
+        return None;
+    }
+    let (k, header, threads) = (w[1].parse::<usize>().unwrap_or(3), w[2] == "1", w[3].parse::<usize>().unwrap_or(1));
+    let parse = |s: &str| -> Vec<Vec<u8>> { if s == "-" { vec![] } else { s.split(',').map(unhex).collect() } };
+    let (r1, r2) = (parse(w[4]), parse(w[5]));
+    let second = OFCase { recs: r2.clone(), k, norm: true, header, delim: b" ".to_vec(), threads, path: "mmap".into(), container: "fa".into(), sched: "free".into() };
+    let (expected, _, _) = exp.file(&second);
+    let inp = write_input(work, uid, &r1, "fa");
+    let outp = format!("{}/twice_{}.txt", work, uid);
+    let _ = std::fs::remove_file(&outp);
+    let mut oc = OligoComputer::new(inp.clone(), outp.clone(), k);
+    oc.set_threads(threads);
+    oc.set_norm(true);
+    oc.set_header(header);
+    install_sched("free");
+    let first = catch(std::panic::AssertUnwindSafe(|| oc.verif_vectorise_mmap()));
+    // the same path now holds other records
+    let (c2, _) = input_case(&r2, "fa");
+    std::fs::write(&inp, crate::p_io::serialise(&c2)).unwrap();
+    let result = catch(std::panic::AssertUnwindSafe(|| oc.verif_vectorise_mmap()));
+    let _ = verif::uninstall();
+    let out = std::fs::read(&outp).unwrap_or_default();
+    remove_input(&inp);
+    let _ = std::fs::remove_file(&outp);
+    if !matches!(first, Ok(Ok(()))) {
+        return Some(Fail { class: "spec", detail: format!("first call failed: {:?}", first.map(|r| r.is_ok())), theorem: "KT.mmap_writes_tile", impl_out: String::new(), model_out: String::new() });
+    }
+    if !matches!(result, Ok(Ok(()))) || out != expected {
+        let nul = out.iter().filter(|&&b| b == 0).count();
+        return Some(Fail {
+            class: "spec",
+            detail: format!("second call on the same computer after the input changed from {} to {} records: {} bytes written ({} NUL), expected {} ({})", r1.len(), r2.len(), out.len(), nul, expected.len(), match &result { Ok(Ok(())) => "returned Ok".to_string(), Ok(Err(e)) => format!("Err {}", e), Err(p) => format!("panicked: {}", trunc(p, 120)) }),
+            theorem: "KT.mmap_writes_tile",
+            impl_out: trunc(&show(&out), 500),
+            model_out: trunc(&show(&expected), 500),
+        });
+    }
+    None
 }
 
 /// C14 on ill-formed input text: whatever the reader makes of it (it may refuse: panic / Err), a run that completes must
@@ -214,7 +362,7 @@ pub fn eval_raw(req: &str, work: &str, uid: &str) -> Option<Fail> {
     let result = catch(std::panic::AssertUnwindSafe(|| oc.verif_vectorise_mmap()));
     let ctl = verif::uninstall();
     let out = std::fs::read(&outp).unwrap_or_default();
-    let _ = std::fs::remove_file(&inp);
+    crate::p_file::remove_input(&inp);
     let _ = std::fs::remove_file(&outp);
     let completed = matches!(result, Ok(Ok(())));
     if !completed {
@@ -502,6 +650,12 @@ pub fn run_files(which: &str, tier: &str, seed: u64, model: &Model, corpus_lines
     for c in corpus_lines.iter().filter_map(|l| OFCase::parse(l)) {
         run_one(&c, "corpus", &mut rep, &mut exp, &mut traces, &mut branching);
     }
+    for (i, r) in corpus_lines.iter().filter(|l| l.starts_with("oftwice ")).enumerate() {
+        rep.evaluations += 1;
+        if let Some(f) = eval_twice(r, &mut exp, work, &format!("twc{}", i)) {
+            rep.push_fail("corpus", "same computer twice".into(), r.clone(), f, 0);
+        }
+    }
     for (i, r) in corpus_lines.iter().filter(|l| l.starts_with("ofraw ")).enumerate() {
         rep.evaluations += 1;
         if let Some(f) = eval_raw(r, work, &format!("rawc{}", i)) {
@@ -540,6 +694,43 @@ pub fn run_files(which: &str, tier: &str, seed: u64, model: &Model, corpus_lines
         }
         rep.traces_validated = traces;
         return rep;
+    }
+    if tier == "thorough" && which != "C16" {
+        for mapped in [true, false] {
+            if which == "C14" && !mapped {
+                continue;
+            }
+            rep.evaluations += 1;
+            progress(&format!("giant output mapped={}", mapped));
+            rep.count("giant-output/cases", 1);
+            if let Some(f) = giant_output(mapped, &mut exp, work) {
+                rep.push_fail("giant-output", format!("{} identical records, k = 7, {} writer", if mapped { 58_300 } else { 29_200 }, if mapped { "mapped" } else { "batched" }), format!("giant {}", if mapped { 1 } else { 0 }), f, 0);
+            } else {
+                rep.nontrivial.insert(format!("giant {}", mapped));
+            }
+        }
+    }
+    if which == "C14" || which == "C05" {
+        // the same computer run twice over a path whose content changed in between
+        let n = if tier == "thorough" { 200 } else { 30 };
+        for i in 0..n {
+            let k = rng.range(1, 4) as usize;
+            let (n1, n2) = (rng.range(0, 8) as usize, rng.range(0, 8) as usize);
+            let r1 = gen_recs(&mut rng, n1, k, 40);
+            let r2 = gen_recs(&mut rng, n2, k, 40);
+            let f = |r: &[Vec<u8>]| if r.is_empty() { "-".to_string() } else { r.iter().map(|x| hexr(x)).collect::<Vec<_>>().join(",") };
+            let req = format!("oftwice {} {} {} {} {}", k, rng.below(2), *rng.pick(&[1u64, 3]), f(&r1), f(&r2));
+            rep.evaluations += 1;
+            progress(&req);
+            rep.count("same-computer-twice/cases", 1);
+            if let Some(fl) = eval_twice(&req, &mut exp, work, &format!("tw{}", i)) {
+                if rep.fail_count("same-computer-twice", fl.class) < 2 {
+                    rep.push_fail("same-computer-twice", format!("records {} then {}", n1, n2), req.clone(), fl, 0);
+                }
+            } else if n1 != n2 {
+                rep.nontrivial.insert(req);
+            }
+        }
     }
     if which == "C14" {
         // ill-formed inputs: FASTQ / FASTA text damaged the way concatenated or truncated files are
@@ -676,6 +867,19 @@ pub fn run_files(which: &str, tier: &str, seed: u64, model: &Model, corpus_lines
         let recs = vec![gen::clean_seq(&mut rng, 40, gen::Flavor::Uniform), s];
         let c = OFCase { recs, k: 3, norm: true, header: false, delim: b" ".to_vec(), threads: 2, path, container: "fa".into(), sched: "free".into() };
         run_one(&c, "long-record", &mut rep, &mut exp, &mut traces, &mut branching);
+    }
+    // (2a') a record of more than 2^23 bases in the middle of a file: what is handed to a worker after (or together with) a very
+    // long record must still be written
+    {
+        let n = (1usize << 23) + rng.range(100_000, 400_000) as usize;
+        let mut big = gen::clean_seq(&mut rng, 4096, gen::Flavor::Uniform);
+        while big.len() < n {
+            let l = big.len().min(n - big.len());
+            big.extend_from_within(..l);
+        }
+        let recs = vec![gen::clean_seq(&mut rng, 30, gen::Flavor::Uniform), big, gen::clean_seq(&mut rng, 25, gen::Flavor::Uniform), gen::clean_seq(&mut rng, 9, gen::Flavor::Uniform)];
+        let c = OFCase { recs, k: *rng.pick(&[3usize, 4]), norm: true, header: rng.chance(1, 2), delim: b" ".to_vec(), threads: *rng.pick(&[1usize, 4]), path: "mmap".into(), container: "fa".into(), sched: "free".into() };
+        run_one(&c, "very-long-record-among-others", &mut rep, &mut exp, &mut traces, &mut branching);
     }
     // (2b) many records in one batch / one mapping with several threads
     for path in ["mmap".to_string(), format!("batch:{}", 4usize << 30)] {
